@@ -33,6 +33,10 @@ var reviewedDeleters = map[string]string{
 }
 
 func runC07(p *Prog, r *Report) {
+	if want("C07.16") {
+		// handles obtained on tables and blocks are released on every path: a removed table's file can go
+		ruleAcquiredHandlesSettled(p, r, "C07.16")
+	}
 	if want("C07.15") {
 		// a compaction deletes exactly its inputs and adds exactly its outputs (shared with C06)
 		ruleCompactionEdit(p, r, "C07.15")
